@@ -37,15 +37,18 @@ theorem C14_setUp_WF (t : Template) (p : Params) (c : Cfg) (h : setUp t p = some
     every frame's histogram written by the multi-pass run (batches of `num_segments_in_memory` segments ×
     `num_TOF_bins_in_memory` TOF bins, first pass skipping to the frame start and saving the position, later passes
     rewinding to it) is the histogram of reading the data ONCE with everything in memory — for every record list,
-    in time-frame mode with any frames, and in `num_events_to_store` mode with one frame. -/
-theorem C14_process_eq_single_pass (c : Cfg) (h : c.WF) (hmode : c.doTimeFrame = true ∨ c.frames.length ≤ 1)
+    in time-frame mode with any frames, and in `num_events_to_store` mode with one frame.
+    `_partial`: the hypothesis `hmode` excludes `num_events_to_store ≠ 0` together with several frames (possible through
+    `set_time_frame_definitions`); there the statement is FALSE of the code
+    (`C14_batch_independent_full_fails`, known finding `lm2pd:num-events-with-frames-depends-on-batches`). -/
+theorem C14_process_eq_single_pass_partial (c : Cfg) (h : c.WF) (hmode : c.doTimeFrame = true ∨ c.frames.length ≤ 1)
     (recs : List Record) (b : Bin) :
     (processData c recs).1.map (fun a => value a b) = (singlePass c recs).1.map (fun a => value a b) :=
   process_eq_singlePass c h.segs h.tofs h.seg h.tof hmode recs b
 
 /-- **batch-size independence**: any two admissible `num_segments_in_memory` / `num_TOF_bins_in_memory`
-    give the same histograms (corollary of `C14_process_eq_single_pass`). -/
-theorem C14_batch_size_independent (c : Cfg) (n m n' m' : Int) (hn : 1 ≤ n) (hm : 1 ≤ m) (hn' : 1 ≤ n') (hm' : 1 ≤ m')
+    give the same histograms (corollary of `C14_process_eq_single_pass_partial`; `_partial` for the same reason). -/
+theorem C14_batch_size_independent_partial (c : Cfg) (n m n' m' : Int) (hn : 1 ≤ n) (hm : 1 ≤ m) (hn' : 1 ≤ n') (hm' : 1 ≤ m')
     (hseg : c.tpl.minSeg ≤ c.tpl.maxSeg) (htof : c.tpl.minTof ≤ c.tpl.maxTof)
     (hmode : c.doTimeFrame = true ∨ c.frames.length ≤ 1) (recs : List Record) (b : Bin) :
     (processData { c with segsInMemory := n, tofInMemory := m } recs).1.map (fun a => value a b)
@@ -68,8 +71,11 @@ structure Timely (c : Cfg) (recs : List Record) : Prop where
 /-- **"Histogramming adds, for every event inside a requested time frame, exactly one count … to the bin that the
     data geometry assigns …, and nothing else"**: for every batch size, every frame's histogram is the one-line
     specification `direct` — add the increment of every event whose preceding time mark lies in `[start,end)` and
-    whose bin is inside the data. -/
-theorem C14_process_eq_direct (c : Cfg) (h : c.WF) (recs : List Record) (ht : Timely c recs) (b : Bin) :
+    whose bin is inside the data.
+    `_partial`: the hypothesis `Timely.regular` excludes (a) time marks that go back — there "the time of an event" is
+    not defined — and (b) two consecutive time marks that jump over a whole frame; for (b) the statement is FALSE of the
+    code (`C14_histogram_is_time_filter_full_fails`, known finding `lm2pd:frame-inside-time-mark-gap`). -/
+theorem C14_process_eq_direct_partial (c : Cfg) (h : c.WF) (recs : List Record) (ht : Timely c recs) (b : Bin) :
     (processData c recs).1.map (fun a => value a b) = c.frames.map fun f => value (direct c recs f.1 f.2) b := by
   rw [process_eq_singlePass c h.segs h.tofs h.seg h.tof (Or.inl ht.mode),
     singlePass_eq_direct c ht.mode ht.frames recs ((regularB_iff _ _ _).1 ht.regular), List.map_map]
@@ -126,12 +132,14 @@ theorem C14_direct_frames_add (c : Cfg) (recs : List Record) (b : Bin) (s0 : Int
   direct_frames_add c recs b L s0 hL
 
 /-- … and on `process_data` itself: the per-frame histograms of a run over frames that partition `[s0, t)` sum to the
-    histogram of the run with the single frame `[s0, t)` (any batch sizes in either run). -/
-theorem C14_frames_add (c : Cfg) (h : c.WF) (recs : List Record) (ht : Timely c recs) (s0 : Int)
+    histogram of the run with the single frame `[s0, t)` (any batch sizes in either run).
+    `_partial`: same hypothesis `Timely` as `C14_process_eq_direct_partial`, and needed
+    (`C14_frames_add_fails_without_regular`). -/
+theorem C14_frames_add_partial (c : Cfg) (h : c.WF) (recs : List Record) (ht : Timely c recs) (s0 : Int)
     (hP : IsPartitionFrom s0 c.frames) (hne : c.frames ≠ []) (b : Bin) :
     ((processData c recs).1.map fun a => value a b).sum
       = ((processData { c with frames := [(s0, lastEnd s0 c.frames)] } recs).1.map fun a => value a b).sum := by
-  rw [C14_process_eq_direct c h recs ht b, C14_direct_frames_add c recs b s0 c.frames hP]
+  rw [C14_process_eq_direct_partial c h recs ht b, C14_direct_frames_add c recs b s0 c.frames hP]
   -- the merged frame satisfies the hypotheses as well
   cases hfr : c.frames with
   | nil => exact absurd hfr hne
@@ -157,7 +165,7 @@ theorem C14_frames_add (c : Cfg) (h : c.WF) (recs : List Record) (ht : Timely c 
         simp only [List.mem_singleton] at hg
         subst hg
         exact ⟨(s, e), by rw [hfr]; simp, Int.le_refl _, hge⟩
-    have := C14_process_eq_direct { c with frames := [(s, lastEnd s ((s, e) :: fs))] } ⟨h.segs, h.tofs, h.seg, h.tof⟩ recs hT b
+    have := C14_process_eq_direct_partial { c with frames := [(s, lastEnd s ((s, e) :: fs))] } ⟨h.segs, h.tofs, h.seg, h.tof⟩ recs hT b
     rw [this]
     simp only [List.map_cons, List.map_nil, List.sum_cons, List.sum_nil, Int.add_zero]
     rfl
@@ -263,9 +271,22 @@ theorem C14_frames_add_fails_without_regular :
         value a ⟨0, 0, 0, 0, 0⟩ + value a ⟨0, 1, 0, 0, 0⟩).sum = 1 := by
   constructor <;> decide
 
+/-- the full statement one would like — for every stream whose time marks never go back — stated, and refuted below -/
+def C14_histogram_is_time_filter_full : Prop :=
+  ∀ (c : Cfg) (recs : List Record), c.WF → c.doTimeFrame = true → FramesOK c.frames →
+    regularB [] 0 recs = true →   -- the time marks never go back (no condition on frames)
+    ∀ b, (processData c recs).1.map (fun a => value a b) = c.frames.map fun f => value (direct c recs f.1 f.2) b
+
+theorem C14_histogram_is_time_filter_full_fails : ¬C14_histogram_is_time_filter_full := by
+  intro h
+  obtain ⟨hwf, hd, hF, _, h1, h2⟩ := C14_process_eq_direct_fails_without_regular
+  have := h gapCfg gapRecs hwf hd hF (by decide) ⟨0, 1, 0, 0, 0⟩
+  rw [h1, h2] at this
+  exact absurd this (by decide)
+
 /-- **negative witness 2** (replayed by the harness: `fixed-hybrid-…`, known finding
     `lm2pd:num-events-with-frames-depends-on-batches`): `num_events_to_store = 1` together with two frames (set through
-    `set_time_frame_definitions`): the mode excluded by `hmode` in `C14_process_eq_single_pass`.  Later passes reset
+    `set_time_frame_definitions`): the mode excluded by `hmode` in `C14_process_eq_single_pass_partial`.  Later passes reset
     `current_time` to the frame start, so the next frame's skip loop behaves differently: frame 2 holds `e2` with both
     segments in memory, `e4` with one. -/
 def hybCfg (n : Int) : Cfg :=
@@ -280,5 +301,19 @@ theorem C14_batch_independence_fails_numEvents_with_frames :
     (processData (hybCfg 2) hybRecs).1.map (fun a => value a ⟨0, 2, 0, 0, 0⟩) = [0, 1] ∧
     (processData (hybCfg 1) hybRecs).1.map (fun a => value a ⟨0, 2, 0, 0, 0⟩) = [0, 0] := by
   constructor <;> decide
+
+/-- batch-size independence for every mode — stated, and refuted by witness 2 -/
+def C14_batch_independent_full : Prop :=
+  ∀ (c : Cfg) (n n' : Int), 1 ≤ n → 1 ≤ n' → 1 ≤ c.tofInMemory → c.tpl.minSeg ≤ c.tpl.maxSeg → c.tpl.minTof ≤ c.tpl.maxTof →
+    ∀ recs b, (processData { c with segsInMemory := n } recs).1.map (fun a => value a b)
+        = (processData { c with segsInMemory := n' } recs).1.map (fun a => value a b)
+
+theorem C14_batch_independent_full_fails : ¬C14_batch_independent_full := by
+  intro h
+  have := h (hybCfg 1) 2 1 (by decide) (by decide) (by decide) (by decide) (by decide) hybRecs ⟨0, 2, 0, 0, 0⟩
+  have h2 : ({ hybCfg 1 with segsInMemory := 2 } : Cfg) = hybCfg 2 := rfl
+  have h1 : ({ hybCfg 1 with segsInMemory := 1 } : Cfg) = hybCfg 1 := rfl
+  rw [h1, h2, C14_batch_independence_fails_numEvents_with_frames.1, C14_batch_independence_fails_numEvents_with_frames.2] at this
+  exact absurd this (by decide)
 
 end StirVerif.C14
